@@ -180,7 +180,13 @@ class Gen:
                     u.body.append("int {%s} = 0;" % j)
                     u.body.append("while ({%s} < %d) {" % (j, lim))
                 u.body.append("    if ({%s} == %d) {" % (j, r.randint(0, lim)))
-                u.body.append("        return %s;" % self.int_expr(u, 1))
+                rexpr = self.int_expr(u, 1)
+                u.body.append("        return %s;" % rexpr)
+                # members named bare inside the loop (the loop variable must not take these names)
+                if not hasattr(u, "loop_free"):
+                    u.loop_free = {}
+                if form == "for":       # (a while loop's counter is declared in the enclosing block)
+                    u.loop_free[j] = set(re.findall(r"(?<![\w.{])([A-Za-z_]\w*)(?![\w}])", rexpr))
                 u.body.append("    }")
                 if form == "while":
                     u.body.append("    {%s} = {%s} + 1;" % (j, j))
@@ -261,9 +267,11 @@ class Gen:
             if cls == "A":
                 for s in STATICS:
                     out.append("    public static int %s = 0;" % s)
-                out.append("    public constructor(int c0) -> A {\n        count = c0;\n        made = made + 1;\n        return this;\n    }")
+                c0 = rename[2] if rename and rename[0] == "ctorA" else "c0"
+                out.append("    public constructor(int %s) -> A {\n        count = %s;\n        made = made + 1;\n        return this;\n    }" % (c0, c0))
             else:
-                out.append("    public constructor(int c1) -> B {\n        super(c1 + 1);\n        level = c1;\n        return this;\n    }")
+                c1 = rename[2] if rename and rename[0] == "ctorB" else "c1"
+                out.append("    public constructor(int %s) -> B {\n        super(%s + 1);\n        level = %s;\n        return this;\n    }" % (c1, c1, c1))
             for u in self.units:
                 if u.cls != cls:
                     continue
@@ -298,6 +306,11 @@ class Gen:
             for n in self.names_of(u):
                 all_locals.setdefault(n, u.name)
         fixed = {"c0", "c1"}
+        # constructor parameters may carry the name of any member their body does not use bare
+        for f in ["total", "size", "secret", "hits"]:
+            out.append(("ctorA", "c0", f, "ctor-param-as-member"))
+        for f in ["extra", "count", "total", "size", "hits", "made"]:
+            out.append(("ctorB", "c1", f, "ctor-param-as-member"))
         for u in self.units:
             own = set(self.names_of(u))
             # names the unit's body uses freely (must not be captured)
@@ -307,6 +320,13 @@ class Gen:
                 free |= set(STATICS)
             # (a method may shadow a field or static of its own class with a local or parameter as long as
             # its body does not use that member by bare name: u.free holds the members it does use)
+            for old in sorted(getattr(u, "loop_free", {})):
+                # a loop variable is in scope inside its loop only: it may take the name of a member that the
+                # unit uses bare elsewhere, as long as the loop itself does not
+                inside = u.loop_free[old] | {v.name for v in self.units} | {"A", "B", "Gen", "this", "echo"}
+                for f in FIELDS_A + FIELDS_B + PRIVATE_A + STATICS:
+                    if f in u.free and f not in inside and f not in own and u.cls:
+                        out.append((u.name, old, f, "loop-var-as-member"))
             for old in sorted(own):
                 out.append((u.name, old, "zz_fresh_%s" % old, "fresh"))
                 for tgt, owner in sorted(all_locals.items()):
@@ -355,6 +375,9 @@ def run(ctx):
         ks = [x for x in ren if x[0].startswith("dtor") and x[3] in ("field", "static") and x not in picked]
         r.shuffle(ks)
         picked += ks[:cap // 3]
+        ks = [x for x in ren if x[3] in ("ctor-param-as-member", "loop-var-as-member")]
+        r.shuffle(ks)
+        picked += ks[:cap // 2]
         # object-typed locals of methods (created, destroyed, assigned again) against the fields of their class
         meth = {u.name for u in g.units if u.kind == "method"}
         ks = [x for x in ren if x[0] in meth and re.match(r"t\d+$", x[1]) and x[3] in ("field", "static") and x not in picked]
@@ -392,9 +415,9 @@ def run(ctx):
         a, b = outcome(br), outcome(r)
         if a == b:
             continue
-        unit = next(u for u in g.units if u.name == ren[0])
-        where = {"function": "function", "method": "method", "static": "static-method", "main": "main",
-                     "dtor": "destructor"}[unit.kind]
+        unit = next((u for u in g.units if u.name == ren[0]), None)
+        where = "constructor" if unit is None else {"function": "function", "method": "method", "static": "static-method",
+                                                    "main": "main", "dtor": "destructor"}[unit.kind]
         how = "status" if a[0] != b[0] else "output"
         if b[0] == "diag" and b[1] == "Semantic":
             key = "scope:%s-in-%s:rejected" % (ren[3], where)
